@@ -295,7 +295,7 @@ def freeze(facts):
 
 
 def search(cfg, start, facts0, target, cut_nodes, atoms, cut_edge=None, on_node=None, nonempty_iter=None,
-           accept=None):
+           accept=None, follow_exc=False):
     """Is `target` reachable from CFG node `start` (start's out-edges are taken first) along a
     path that (a) never enters a node of cut_nodes, (b) never takes an edge for which
     cut_edge(node, label, facts) is true, (c) is consistent with the facts collected from the test
@@ -315,7 +315,7 @@ def search(cfg, start, facts0, target, cut_nodes, atoms, cut_edge=None, on_node=
         seen.add(key)
         for t, lab in node.succ:
             f2 = facts
-            if lab == 'exc':
+            if lab == 'exc' and not follow_exc:
                 continue
             if node.kind == 'test' and lab in (True, False):
                 lits = literals(atoms.formula(node.ast.test), lab)
